@@ -69,6 +69,7 @@ def check_case(case, seed, n_eager):
 
     has_call = "call" in jaxir.ops_of(prog)
     f_inline = jaxir.build(prog, kc, inline_calls=True) if has_call else None
+    f_clo = jaxir.build(prog, kc, close_calls=True) if has_call else None      # wrapped function closes over an enclosing value
 
     def ordinary_ok(mode, n, ordn):
         """Ordinary evaluation must equal TLC's EvalProg.  A program with `call` evaluates genjax's initial-style primitive
@@ -101,6 +102,14 @@ def check_case(case, seed, n_eager):
             fails.append(dict(clause="C36.transparent", mode="eager", n=n, why="raised:" + type(e).__name__, error=repr(e)[:300]))
             continue
         judge("eager", n, got, ordn)
+        if has_call:
+            calls += 1
+            try:
+                got = proj(stateful(f_clo)(h0, *inputs[n]))
+            except Exception as e:  # noqa: BLE001
+                fails.append(dict(clause="C36.initial_style", mode="closure-eager", n=n, why="raised:" + type(e).__name__, error=repr(e)[:300], src="call"))
+                continue
+            judge("closure-eager", n, got, ordn)
 
     try:
         jboth = jax.jit(lambda *a: (f(*a), stateful(f)(h0, *a)))     # one compilation: ordinary and interpreted
@@ -113,6 +122,11 @@ def check_case(case, seed, n_eager):
                 continue
             calls += 1
             judge("jit", n, proj(o2), ordn)
+        if has_call:
+            jclo = jax.jit(lambda *a: stateful(f_clo)(h0, *a))
+            for n, inp in enumerate(inputs):
+                calls += 1
+                judge("closure-jit", n, proj(jax.device_get(jclo(*inp))), ev[n])
     except Exception as e:  # noqa: BLE001
         fails.append(dict(clause="C36.transparent", mode="jit", n=-1, why="raised:" + type(e).__name__, error=repr(e)[:300]))
     return dict(fails=fails, machinery=machinery, calls=calls)
